@@ -858,6 +858,40 @@ fn run_random(c: &mut Ctx, args: &Args, rng: &mut ChaCha20Rng, n: u64, until_fra
     }
     c.r.count("random_plans", i);
     let _ = args;
+
+    // `from_stored_parts` validation: refuses exactly the crossing/buffer pairs whose prepared note
+    // is not a representable amount, and never lets `migration_outputs` panic on what it accepted
+    let mut k = 0;
+    while k < 20_000 && c.r.time_left() {
+        k += 1;
+        let near = |rng: &mut ChaCha20Rng| match rng.gen_range(0..4) {
+            0 => MAX_MONEY as u64 - rng.gen_range(0..3),
+            1 => rng.gen_range(0..=MAX_MONEY as u64),
+            2 => rng.gen_range(0..3),
+            _ => (MAX_MONEY / 2) as u64 + rng.gen_range(0..3) - 1,
+        };
+        let buffer = near(rng);
+        let crossings: Vec<u64> = (0..rng.gen_range(0..4)).map(|_| near(rng)).collect();
+        let fits = crossings.iter().all(|c| *c as u128 + buffer as u128 <= MAX_MONEY);
+        let got = guard(|| {
+            DenominationPlan::from_stored_parts(crossings.iter().map(|c| z(*c)).collect(), z(buffer), None, Zatoshis::ZERO, z(MAX_MONEY as u64), Zatoshis::ZERO)
+                .map(|p| p.migration_outputs().iter().map(|v| v.into_u64()).collect::<Vec<_>>())
+        });
+        c.r.evals(1);
+        c.r.count("stored_parts_validations", 1);
+        let ok = match &got {
+            Ok(Ok(outs)) => fits && outs.iter().zip(&crossings).all(|(o, c)| *o == c + buffer),
+            Ok(Err(_)) => !fits,
+            Err(_) => false,
+        };
+        if !ok {
+            c.r.violation(
+                "C16:from_stored_parts:validation",
+                format!("crossings {crossings:?} buffer {buffer}: {got:?}, representable = {fits}"),
+                json!({"op": "from_stored_parts", "crossings": crossings, "buffer": buffer}),
+            );
+        }
+    }
 }
 
 /// Concrete wallets: the real preparation planner as the oracle, through `plan_denominations`
